@@ -136,6 +136,22 @@ theorem C04_bitmap_evaluated (bsq0 : List Node) :
     (initDpbm { index := dataPositions bsq0 } bsq0 (startPos bsq0)).index = dataPositions bsq0 :=
   initDpbm_eval bsq0
 
+/-- **what the bit-map is about**: the index built by `bufr_index_dpbm` lists, in order, exactly the
+data entities in front of the first operator that opens a bit-map section — element descriptors and
+2 05 YYY inserts, leaving out replication, sequence and other operator descriptors and whatever a
+replication occurring zero times left out (`dataPositionsSpec`, written as the rule reads) -/
+theorem C04_bitmap_index (bsq : List Node) : dataPositions bsq = dataPositionsSpec bsq 0 :=
+  dataPositions_spec bsq
+
+/-- **which entries are flagged present**: `k` is among the evaluated bits exactly when it is below the
+number of data entities and the `k`-th bit-map value is 0; they come out in increasing order, so the
+`k`-th marker stands for the `k`-th element flagged present -/
+theorem C04_bitmap_bits (nb : Nat) (ns : List Node) (k : Nat) :
+    (k ∈ zeroBits nb ns 0 ↔ k < nb ∧ ∃ n, ns[k]? = some n ∧ n.ival = 0) ∧ (zeroBits nb ns 0).Pairwise (· < ·) := by
+  refine ⟨?_, zeroBits_sorted nb ns 0⟩
+  have := mem_zeroBits nb ns 0 k
+  simpa using this
+
 /-- the reference encoder never asks for less than one bit per increment -/
 theorem C04_minNbinc_pos (d : Nat) : 1 ≤ minNbinc d := by unfold minNbinc; omega
 
